@@ -85,37 +85,37 @@ func registerHistory(name, rule string, quick, thorough int, o genOpts, nt func(
 func init() {
 	registerHistory("builder/history",
 		"at least two accepted constraints interact (same dimension: number bounds, prefix, length bounds, nullness) or a contradiction follows an accepted constraint",
-		40000, 500000,
+		40000, 250000,
 		genOpts{chainProb: 15, wrongKind: 8, minSteps: 1, maxSteps: 8, maxCands: 4, poolMax: 3, knownStart: 25, nullStart: 8},
 		func(h History, o *outcome) bool { return interacting(o) })
 
 	registerHistory("builder/chain",
 		"at least two calls were made on one builder and two accepted constraints interact",
-		30000, 300000,
+		30000, 150000,
 		genOpts{chainProb: 80, wrongKind: 5, minSteps: 2, maxSteps: 8, maxCands: 3, poolMax: 3, knownStart: 20, nullStart: 5},
 		func(h History, o *outcome) bool { return o.chainCalls > 0 && interacting(o) })
 
 	registerHistory("builder/contradiction",
 		"a contradiction (predicted and observed) follows at least one accepted constraint; the pool has one or two numbers so that inclusive/exclusive ties dominate",
-		30000, 300000,
+		30000, 150000,
 		genOpts{chainProb: 30, wrongKind: 3, minSteps: 2, maxSteps: 6, maxCands: 2, poolMax: 2, knownStart: 35, nullStart: 10},
 		func(h History, o *outcome) bool { return o.contraAfter > 0 })
 
 	registerHistory("builder/collapse",
 		"a builder was completed while the model admitted exactly one value (null, a single number, an empty collection, the empty tuple/object) or the library returned a known value for an unknown start",
-		30000, 300000,
+		30000, 150000,
 		genOpts{chainProb: 50, wrongKind: 0, minSteps: 2, maxSteps: 6, maxCands: 3, poolMax: 1, knownStart: 0, nullStart: 0, collapse: true},
 		func(h History, o *outcome) bool { return o.singleton > 0 || o.collapsed > 0 })
 
 	registerHistory("builder/dynamic",
 		"DynamicVal received at least two refinement calls (of any kind, also contradictory ones)",
-		8000, 60000,
+		8000, 30000,
 		genOpts{dynamicOnly: true, chainProb: 50, minSteps: 1, maxSteps: 8, maxCands: 3, poolMax: 2},
 		func(h History, o *outcome) bool { return len(h.Steps) >= 2 })
 
 	registerHistory("range/membership-monotone",
 		"at least one candidate was admitted by the model and one candidate was excluded by the library at some step (so both directions of the membership oracle and the monotonicity check were exercised)",
-		30000, 300000,
+		30000, 150000,
 		genOpts{chainProb: 10, wrongKind: 0, minSteps: 2, maxSteps: 7, maxCands: 10, poolMax: 3, knownStart: 10, nullStart: 3},
 		func(h History, o *outcome) bool { return o.memberChecks > 0 && o.memberFalse > 0 })
 
